@@ -6,7 +6,8 @@ use jiff::{civil::DateTime, fmt::strtime, tz, Timestamp};
 ///
 /// Infinite and too large values saturate, and are thus out of range for any timestamp.
 fn float_to_micros(f: f64) -> Option<i64> {
-    (!f.is_nan()).then(|| (f * 1000000.0) as i64)
+    // round to the nearest microsecond: `1.000001` is slightly less than 1000001 microseconds
+    (!f.is_nan()).then(|| (f * 1000000.0).round() as i64)
 }
 
 /// Convert a UNIX epoch timestamp with optional fractions.
@@ -43,7 +44,8 @@ fn array_to_datetime<V: ValT>(v: &[V]) -> Option<Result<DateTime, jiff::Error>> 
         i8(min)?,
         // the `as i8` cast saturates, returning a number in the range [-128, 128]
         sec.floor() as i8,
-        (sec.fract() * 1e9) as i32,
+        // round to the nearest nanosecond, staying below the next second
+        ((sec.fract() * 1e9).round() as i32).min(999_999_999),
     ))
 }
 
